@@ -90,8 +90,12 @@ def written(psd):
 
 
 def fresh_twin(psd):
-    """the same document with no history: written and opened again"""
-    return PSDImage.open(io.BytesIO(written(psd)))
+    """the same document with no history: written and opened again (in the same compatibility mode, which is a setting
+    of the session, not of the file)"""
+    q = PSDImage.open(io.BytesIO(written(psd)))
+    if q.compatibility_mode != psd.compatibility_mode:
+        q.compatibility_mode = psd.compatibility_mode
+    return q
 
 
 def merged_after_noop_edit(q):
@@ -276,6 +280,45 @@ def degenerate_histories(recipe, rng, reads=True):
         if ops:
             yield "only-mask-disabled", ops
             yield "only-mask-disabled-and-enabled-again", ops + [("maskoff", on[-1], False)]
+
+
+def clip_input_histories(recipe, rng, reads=True):
+    """Histories over the two inputs of the clipping relation that are not structure, visibility or the clipping flag:
+    the blend mode of the layer a clip run sits on (pass-through or not) and the compatibility mode of the document.
+    For every container child with a sibling directly above it: that sibling made a clipping layer, the compatibility
+    mode set (every mode that changes the rule, then back), the blend mode of the base walked through pass-through ->
+    normal -> multiply -> pass-through, in both orders (mode first / blend first), everything read in between.
+    yields (family, ops)."""
+    w0 = T.build(recipe)
+    docs = w0.docs()
+    if not docs:
+        return
+    d = docs[0]
+    att = T.attached(w0)
+    bases = []
+    for c in [c for c in w0.conts() if c in att or c == d]:
+        ks = _kids(w0, c)
+        for below, above in zip(ks, ks[1:]):
+            bases.append((below, above))
+    rng.shuffle(bases)
+    groups_first = sorted(bases, key=lambda p: not isinstance(w0.objs[p[0]], GroupMixin))
+    walk = ["PASS_THROUGH", "NORMAL", "MULTIPLY", "PASS_THROUGH", "NORMAL"]
+
+    def read_all():
+        X = [x for x in w0.layers() if x in att]
+        return [("opaque", "clip_layers", x) for x in X] + [("obs", "repr", x) for x in X[:3]] if reads else []
+
+    for (base, above) in groups_first[:3]:
+        for mode in ("CLIP_STUDIO_PAINT", "PAINT_TOOL_SAI"):
+            ops = [("clip", above, True), ("compat", d, mode)] + read_all()
+            for b in walk:
+                ops.append(("blend", base, b))
+            ops.append(("compat", d, "PHOTOSHOP"))
+            yield "compat-then-blend", ops
+            ops = [("clip", above, True)]
+            for b in walk[:3]:
+                ops += [("blend", base, b), ("compat", d, mode)] + read_all() + [("compat", d, "PHOTOSHOP")]
+            yield "blend-then-compat", ops
 
 
 GROUPS = {"_clip_layers": "clip-relation", "_has_clip_target": "clip-relation", "clip_layers": "clip-relation",
